@@ -20,7 +20,12 @@
 (***************************************************************************)
 EXTENDS Arena
 
-CONSTANT MaxDepth
+CONSTANTS MaxDepth,
+          TwSlots     \* layouts <<size, align>> of the Result<T, E> slots offered to (try_)alloc_try_with
+\* (a .cfg file cannot hold tuples: the configs substitute one of these)
+TwNone == {}
+TwReal == {<<2, 1>>, <<16, 8>>, <<2008, 8>>}      \* Result<u8, ()>, Result<u64, u64>, Result<u64, [u8; 2000]>
+
 VARIABLES hist, tag
 gvars == <<ar, sent, heap, live, nslot, err, hist, tag>>
 
@@ -55,6 +60,11 @@ GNext ==
           GrowOp(b, inc, al, ans) /\ Rec(<<"Grow", Rank(b), inc, al, Placed(ans)>>) /\ Tag(<<"grow", GrowBranch(b, inc, al)>>)
      \/ \E b \in live, dec \in ShrinkDecs, al \in Aligns : \E ans \in AnswerSeqs(ChunkAlign(al)) :
           ShrinkOp(b, dec, al, ans) /\ Rec(<<"Shrink", Rank(b), dec, al, Placed(ans)>>) /\ Tag(<<"shrink", ShrinkBranch(b, dec, al)>>)
+     \/ \E sl \in TwSlots, okf \in BOOLEAN, ck \in {0, 1, 2}, cn \in ClosSizes : \E ans \in AnswerSeqs(ChunkAlign(sl[2])) :
+          /\ (ck = 0 => cn = CHOOSE x \in ClosSizes : TRUE)          \* the size is irrelevant when nothing is allocated
+          /\ TryWithOp(sl[1], sl[2], okf, ck, cn, ans)
+          /\ Rec(<<"TryWith", sl[1], sl[2], IF okf THEN 1 ELSE 0, ck, cn, Placed(ans)>>)
+          /\ Tag(<<"trywith", okf, ck, AllocBranch(sl[1], sl[2]), Len(ar'.ch) - Len(ar.ch)>>)
      \/ ResetOp /\ Rec(<<"Reset", 0, 0, 0>>) /\ Tag("reset")
      \/ \E lim \in Limits \cup {NoLimit} : SetLimit(lim) /\ Rec(<<"Limit", lim, 0, 0>>) /\ Tag("limit")
 
